@@ -707,7 +707,7 @@ def scriptBytes : List Tok → Nat
   | .chunk b :: r => b.length + scriptBytes r
   | _ :: r => scriptBytes r
 
-/-- enough steps for any script (see `Proofs/Multipart.lean`) -/
-def fuelFor (script : List Tok) : Nat := 4 * (scriptBytes script + script.length) + 64
+/-- enough steps for any script (`C15_terminates`, proved in `Proofs/MultipartTerm.lean`) -/
+def fuelFor (script : List Tok) : Nat := 8 * (scriptBytes script + script.length) + 8
 
 end ActixModel.Multipart
